@@ -65,7 +65,14 @@ RULE = ('pool histories of 1-12 calls (quick) / up to 60 (thorough) over insert_
         'forms, section, extrude, clone, make_splines_identical; start objects: pardim 1-3, dim 1-3, rational (positive weights) or not, open and '
         'periodic directions of order 1-4; symbolic knot/split values resolved against the current state; constructor stream: '
         'valid open/periodic, decreasing, too few, order<=0, periodic mismatch, within/beyond tolerance, accepted-but-not-periodic. '
-        'distinct = distinct protocol lines; non-trivial = at least one call of the history completed (constructor cases: all).')
+        'distinct = distinct protocol lines; non-trivial = at least one call of the history completed (constructor cases: all). '
+        'Comparison: counts, orders, periodicity, shapes, accessor structure and wf verdicts exactly; knots to 1e-12 of the knot '
+        'magnitude - widened, only for objects whose LINEAGE passed through a knot magnitude whose double resolution exceeds that '
+        '(start knots near 1e6 later shifted/rescaled to O(1) by append / reparam / make_splines_identical), and only by what is '
+        'EXPLAINED call by call: the deviation measured exactly (impl double - model rational) on the objects the call read, '
+        'rescaled with the domain, plus one rounding of 2 ulp of the largest knot magnitude the call touched '
+        '(tag cmp=knot-tolerance-widened-to-float-resolution); control values of such objects to that amount / smallest knot gap; '
+        'the oracle (well-formedness of the real objects) is not affected by any tolerance of the comparison.')
 REQUIRED_TAGS = ['op=insert', 'op=refine', 'op=raise', 'op=lower', 'op=reverse', 'op=swap', 'op=reparam', 'op=reparamall',
                  'op=split', 'op=append', 'op=makeper', 'op=lowerper', 'op=affine', 'op=section', 'op=extrude', 'op=clone', 'op=identical',
                  'pardim=1', 'pardim=2', 'pardim=3', 'rational', 'periodic-dir', 'len>=8', 'pool>=3', 'err:ValueError',
@@ -1362,7 +1369,7 @@ def _cmp_val(name, iv, mv, rtol, exact=False):
     return None if ok else '%s: impl %s vs model %s' % (name, str(iv)[:80], str(to_float(mv) if not isinstance(mv, str) else mv)[:80])
 
 
-def _cmp_acc(acc, macc, cp_rtol, path):
+def _cmp_acc(acc, macc, cp_rtol, path, knot_rtol=KNOT_RTOL):
     """The accessor block (`_acc_real`) against `encodeAcc` of the model."""
     if acc is None:
         return None
@@ -1375,7 +1382,7 @@ def _cmp_acc(acc, macc, cp_rtol, path):
               ('knots(with_multiplicities)', acc['knots'], mkn, False), ('knots()', acc['spans'], msp, False),
               ('start()', acc['start'], mst, False), ('end()', acc['end'], men, False)]
     for name, iv, mv, exact in checks:
-        d = _cmp_val(name, iv, mv, KNOT_RTOL if not exact else 0.0, exact)
+        d = _cmp_val(name, iv, mv, knot_rtol if not exact else 0.0, exact)
         if d:
             return '%s accessor %s' % (path, d)
     n = acc['len']
@@ -1406,7 +1413,7 @@ def _cmp_acc(acc, macc, cp_rtol, path):
     return None
 
 
-def _cmp_obj(obs, mobj, cp_rtol, path):
+def _cmp_obj(obs, mobj, cp_rtol, path, widen=None):
     mb, msh, mflat, mrat = mobj
     if len(mb) != len(obs['bases']):
         return '%s: %d bases vs model %d' % (path, len(obs['bases']), len(mb))
@@ -1418,8 +1425,9 @@ def _cmp_obj(obs, mobj, cp_rtol, path):
         mk = [float(x) for x in jb[1]]
         scale = max([1.0] + [abs(x) for x in mk])
         for q, (x, y) in enumerate(zip(ib[1], mk)):
-            if not abs(x - y) <= KNOT_RTOL * scale:
-                return '%s basis %d knot %d: impl %.17g vs model %.17g' % (path, d, q, x, y)
+            if not abs(x - y) <= KNOT_RTOL * scale + (widen[d] if widen else 0.0):
+                return '%s basis %d knot %d: impl %.17g vs model %.17g%s' % (
+                    path, d, q, x, y, ' (float-resolution bound of the lineage %.3g)' % widen[d] if widen and widen[d] else '')
     if list(obs['shape']) != [int(x) for x in msh]:
         return '%s: control array shape impl %r vs model %r' % (path, obs['shape'], [int(x) for x in msh])
     if bool(obs['rational']) != (str(mrat) == 'true'):
@@ -1432,6 +1440,119 @@ def _cmp_obj(obs, mobj, cp_rtol, path):
         q = int(np.argmax(bad))
         return '%s control value %d: impl %.17g vs model %.17g (tol %.2g, scale %.3g)' % (path, q, iv[q], mf[q], cp_rtol, scale)
     return None
+
+
+# ---------------------------------------------------------------------------------------------
+# Float resolution of the knots along the LINEAGE of an object.
+#
+# The model computes in exact rationals; the implementation stores every knot rounded to a double.  A rounding is
+# invisible while the knots stay at the magnitude where it happened (it is <= ulp/2 there: the comparison sees the
+# nearest double of the exact value) and becomes visible when a later call translates / rescales the knots to a
+# smaller magnitude: knots computed at 1e6 (resolution 1.2e-10) and then shifted to [1, 4] by `append` differ from
+# the exact values by 5e-11 although every call rounded correctly (replay C10-c8915291468f).  This is double
+# arithmetic, not the library and not the model.  The comparison therefore checks every call INDUCTIVELY: the
+# deviation of the knots after a call may exceed the ordinary `KNOT_RTOL * scale` only by what is explained by
+#   the deviation MEASURED (exactly, impl double minus model rational) on the objects the call read, before the
+#   call - rescaled with the domain for reparam / make_splines_identical, added up for the two objects of append /
+#   make_splines_identical - plus one fresh rounding of 2 ulp of the largest knot magnitude the call touched.
+# Nothing is widened unless that amount exceeds `KNOT_RTOL * scale`, i.e. only for objects whose lineage passed
+# through a knot magnitude that cannot resolve `KNOT_RTOL` of the current one; all other comparisons are unchanged.
+# Counts, orders, periodicity, shapes and wf verdicts are always compared exactly; closeness of every knot within
+# the bound implies equal multiplicity structure up to that bound.
+
+_U = 2.0 ** -52
+RESCALING_OPS = ('reparam', 'reparamall', 'identical')
+
+
+def _kn_mag(b):
+    return max(abs(b[1][0]), abs(b[1][-1])) if b[1] else 0.0
+
+
+def _kn_span(b):
+    return (b[1][-1] - b[1][0]) if b[1] else 0.0
+
+
+def _min_gap(b):
+    g = [y - x for x, y in zip(b[1], b[1][1:]) if y > x]
+    return min(g) if g else 1.0
+
+
+def _measured(bases, mbases):
+    """Exact deviation impl double - model rational, per direction (None where the structure differs)."""
+    out = []
+    for ib, jb in zip(bases, mbases):
+        if len(ib[1]) != len(jb[1]):
+            out.append(None)
+            continue
+        try:
+            out.append(float(max([F(0)] + [abs(F(x) - F(y)) for x, y in zip(ib[1], jb[1])])))
+        except (TypeError, ValueError, OverflowError):
+            out.append(None)
+    return out
+
+
+def _hidden_err(s, iv, mv):
+    """Per completed call: {pool index: [explained deviation per direction]} for the objects the call changed /
+    created (see above).  `mv`: the model's answer; calls without a comparable model state explain nothing."""
+    out = []
+    if not (isinstance(mv, list) and len(mv) == 2 and isinstance(mv[1], list)):
+        return [{} for _ in iv['steps']]
+    prev, E = {}, {}
+    for j, o in enumerate(s['pool']):
+        prev[j] = [[b['order'], [float(x) for x in b['knots']], b['periodic']] for b in o['bases']]
+        E[j] = [0.0] * len(prev[j])        # start knots are doubles, the model receives them exactly
+    for ins, st, ms in zip(s['ops'], iv['steps'], mv[1]):
+        if 'err' in st or is_err(ms) or not isinstance(ms, list) or len(ms) != len(st['changed']):
+            out.append({})
+            continue
+        op = ins['op']
+        parents = [q for q in (ins.get('i'), ins.get('j') if op in ('append', 'identical') else None)
+                   if q is not None and q in prev]
+        mag_par = max([0.0] + [_kn_mag(b) for q in parents for b in prev[q]])
+        allowed, meas = {}, {}
+        for c, mc in zip(st['changed'], ms):
+            j, nb = c[0], c[1]['bases']
+            own = j if j in prev else (parents[0] if parents else None)
+            srcs = [own] if own is not None else []
+            if op in ('append', 'identical'):
+                srcs = list(dict.fromkeys(srcs + parents))
+            e = [0.0] * len(nb)
+            for q in srcs:
+                ob, oe = prev[q], E[q]
+                if len(ob) == len(nb) and op not in ('swap', 'section', 'extrude'):
+                    for d in range(len(nb)):
+                        f = 1.0
+                        if op in RESCALING_OPS and _kn_span(ob[d]) > 0:
+                            f = _kn_span(nb[d]) / _kn_span(ob[d])
+                            if q != own:
+                                f = max(1.0, f)
+                        e[d] += oe[d] * f
+                else:
+                    m = max(oe) if oe else 0.0
+                    e = [x + m for x in e]
+            mag = max([mag_par] + [_kn_mag(b) for b in nb])
+            allowed[j] = [x + 2 * _U * mag for x in e]
+            try:
+                mb = mc[1][0]
+                meas[j] = _measured(nb, mb) if len(mb) == len(nb) else [None] * len(nb)
+            except (TypeError, IndexError):
+                meas[j] = [None] * len(nb)
+        for c in st['changed']:
+            j = c[0]
+            prev[j] = c[1]['bases']
+            # carry the MEASURED deviation forward (never more than what was explained: an unexplained deviation
+            # is reported by the comparison at this call and must not explain later ones)
+            E[j] = [min(a, m) if m is not None else a for a, m in zip(allowed[j], meas[j])]
+        out.append(allowed)
+    return out
+
+
+def _widening(bases, e):
+    """Per direction: the part of the explained deviation that the ordinary knot tolerance does not cover (else 0)."""
+    w = []
+    for b, x in zip(bases, e):
+        w.append(x if x > KNOT_RTOL * max(1.0, _kn_mag(b)) else 0.0)
+    return w
 
 
 LOOSE_OPS = ('raise', 'lower', 'append')
@@ -1476,6 +1597,8 @@ def compare(s, iv, mv):
             len(iv['steps']), len(msteps), _short_step(iv['steps'][-1]) if iv['steps'] else '-',
             str(msteps[-1])[:60] if msteps else '-')
     loose = 0
+    hidden = _hidden_err(s, iv, mv)
+    cpx = {}       # pool index -> extra relative tolerance of the control values (persists along the lineage)
     for n, (st, ms, ins) in enumerate(zip(iv['steps'], msteps, s['ops'])):
         if ins['op'] in LOOSE_OPS:
             loose += 1
@@ -1493,12 +1616,23 @@ def compare(s, iv, mv):
         for (j, obs, wf, _ex, acc), (mj, mobj, mwf, macc) in zip(st['changed'], ms):
             if j != int(mj):
                 return 'call %d (%s): pool index %d vs model %s' % (n, ins['op'], j, mj)
-            d = _cmp_obj(obs, mobj, cp_rtol, 'call %d (%s) object %d' % (n, ins['op'], j))
+            widen = _widening(obs['bases'], hidden[n].get(j, [0.0] * len(obs['bases'])))
+            kn_tol = KNOT_RTOL
+            par = [q for q in (j, ins.get('i'), ins.get('j') if ins['op'] in ('append', 'identical') else None) if q in cpx]
+            extra = max([0.0] + [cpx[q] for q in par])
+            if any(widen):
+                # knots off by up to `widen` move the blending coefficients by widen / (knot gap)
+                extra += 10 * max(w / _min_gap(b) for w, b in zip(widen, obs['bases']))
+                kn_tol = KNOT_RTOL + max(widen)
+            if extra:
+                cpx[j] = extra
+            cp_tol = cp_rtol + extra
+            d = _cmp_obj(obs, mobj, cp_tol, 'call %d (%s) object %d' % (n, ins['op'], j), widen)
             if d:
                 return d
             if (not wf) != (str(mwf) == 'true'):
                 return 'call %d (%s) object %d: wf_real says %r, model wfB says %s' % (n, ins['op'], j, wf or 'well formed', mwf)
-            d = _cmp_acc(acc, macc, cp_rtol, 'call %d (%s) object %d' % (n, ins['op'], j))
+            d = _cmp_acc(acc, macc, cp_tol, 'call %d (%s) object %d' % (n, ins['op'], j), kn_tol)
             if d:
                 return d
     return None
@@ -1748,6 +1882,10 @@ def tags(s, res):
         for fl in iv['flags']:
             for f in fl:
                 t.add('flag=' + f)
+        for st, h in zip(iv['steps'], _hidden_err(s, iv, res.get('model'))):
+            if 'err' not in st and any(any(_widening(c[1]['bases'], h.get(c[0], [0.0] * len(c[1]['bases'])))) for c in st['changed']):
+                t.add('cmp=knot-tolerance-widened-to-float-resolution')
+                break
         if done == 0:
             t.add('nothing-completed')
     return sorted(t)
